@@ -5,6 +5,7 @@
   `fixedCfg` = the tree after the repair (discarded extended data is credited); `oldCfg` = before.
 -/
 import PV.Model.ChanPairLemmas
+import PV.Model.ChanDrainLemmas
 namespace PV.Props.C20
 open PV.Chan PV.ChanPair
 
@@ -139,6 +140,103 @@ theorem quiescent_sender_proceeds (s : St) (t want : Nat) (ext : Bool) (lp : Opt
     refine ⟨allocate s want, Kont.loop l ext (allocate s want), hpos, ?_⟩
     simp only [step, hr, wakeRegion, hne, if_false, hc, he, Bool.or_self, Bool.false_eq_true, grant, hane, setThr]
     simp [hlt]
+
+/-! ## liveness skeleton: draining terminates, and a drained system is quiescent -/
+
+private theorem sumBy_zero (f : TSt → Nat) (l : List TSt) (h : ∀ x ∈ l, f x = 0) : sumBy f l = 0 := by
+  induction l with
+  | nil => rfl
+  | cons a as ih =>
+    simp only [sumBy, h a (List.mem_cons_self ..), ih (fun x hx => h x (List.mem_cons_of_mem _ hx))]
+
+private theorem sofar_reach (winA maxA winB maxB nthr : Nat) (sched : List PAct) :
+    SofarInv (prun fixedCfg (initPair winA maxA winB maxB nthr) sched).a ∧
+    SofarInv (prun fixedCfg (initPair winA maxA winB maxB nthr) sched).b := by
+  have : ∀ (ps : List PAct) (z : Sys), SofarInv z.a ∧ SofarInv z.b →
+      SofarInv (prun fixedCfg z ps).a ∧ SofarInv (prun fixedCfg z ps).b := by
+    intro ps
+    induction ps with
+    | nil => intro z h; exact h
+    | cons p ps ih => intro z h; exact ih _ (pstep_sofar z p h.1 h.2)
+  exact this sched _ ⟨by simp [SofarInv, initPair, init], by simp [SofarInv, initPair, init]⟩
+
+/-- **Draining terminates.**  From any reachable state, a run that consists only of enabled drain actions —
+    a thread writing a message it holds, a link delivering its next message, a reader taking buffered bytes, a
+    reader's `_check_add_window` — has at most `mu y` steps (`mu` = weighted count of messages held or in flight,
+    buffered bytes and still-open channels).  So if the network, the reader and the writers' pending wire writes
+    keep being scheduled (fairness), the system reaches a state in which none of them is enabled. -/
+theorem draining_terminates (winA maxA winB maxB nthr : Nat) (sched : List PAct) (y : Sys)
+    (hy : y = prun fixedCfg (initPair winA maxA winB maxB nthr) sched) (ps : List PAct) (h : DrainRun y ps) :
+    ps.length ≤ mu y := by
+  subst hy
+  have hs := sofar_reach winA maxA winB maxB nthr sched
+  have := drainRun_bounded _ ps h hs.1 hs.2
+  omega
+
+/-- **A drained system is quiescent.**  If no drain action is enabled and each side has an idle thread (b's
+    reader is between two `recv` calls, a's transport thread is idle), then nothing is in flight, nobody holds a
+    message or unaccounted bytes, and b's buffers are empty. -/
+theorem drained_is_quiescent (y : Sys) (ta tb : Nat) (hia : idleOf y.a ta = true) (hib : idleOf y.b tb = true)
+    (hnone : ∀ p, ¬ Drain y p) : Quiescent y := by
+  have hab : y.ab = [] := by
+    cases h : y.ab with
+    | nil => rfl
+    | cons m rest => exact absurd (Drain.deliverAB tb 0 m rest h hib) (hnone _)
+  have hba : y.ba = [] := by
+    cases h : y.ba with
+    | nil => rfl
+    | cons m rest => exact absurd (Drain.deliverBA ta 0 m rest h hia) (hnone _)
+  have hA : ∀ x ∈ y.a.thr, x.heldData = 0 := by
+    intro x hx
+    obtain ⟨t, ht⟩ := List.mem_iff_getElem?.1 hx
+    cases x with
+    | hold ms k =>
+      cases ms with
+      | nil => rfl
+      | cons m ms => exact absurd (Drain.left _ (SideDrain.emit t m ms k ht)) (hnone _)
+    | _ => rfl
+  have hB : ∀ x ∈ y.b.thr, x.heldAdj = 0 := by
+    intro x hx
+    obtain ⟨t, ht⟩ := List.mem_iff_getElem?.1 hx
+    cases x with
+    | hold ms k =>
+      cases ms with
+      | nil => rfl
+      | cons m ms => exact absurd (Drain.right _ (SideDrain.emit t m ms k ht)) (hnone _)
+    | gotBytes n => exact absurd (Drain.right _ (SideDrain.check t n ht)) (hnone _)
+    | _ => rfl
+  have hin : y.b.inBuf = 0 := by
+    cases h : y.b.inBuf with
+    | zero => rfl
+    | succ n =>
+      exact absurd (Drain.right _ (SideDrain.recv tb 1 false hib (by decide) (by simp [h]))) (hnone _)
+  have herr : y.b.errBuf = 0 := by
+    cases h : y.b.errBuf with
+    | zero => rfl
+    | succ n =>
+      exact absurd (Drain.right _ (SideDrain.recv tb 1 true hib (by decide) (by simp [h]))) (hnone _)
+  refine ⟨by rw [hab]; rfl, by rw [hba]; rfl, sumBy_zero _ _ hA, sumBy_zero _ _ hB, hin, herr⟩
+
+/-- **Putting it together.**  Whenever draining has run its course on an open channel, the sender's window is at
+    least 90 % of the advertised one: a writer with pending data is then served (`quiescent_sender_proceeds`).
+    Fairness (the drain actions and the writer's wake-up do get scheduled) is the only hypothesis left. -/
+theorem drained_sender_window_open (winA maxA winB maxB nthr : Nat) (sched : List PAct) (y : Sys)
+    (hy : y = prun fixedCfg (initPair winA maxA winB maxB nthr) sched) (ta tb : Nat)
+    (hia : idleOf y.a ta = true) (hib : idleOf y.b tb = true) (hnone : ∀ p, ¬ Drain y p)
+    (ha : y.a.linked = true) (hb : y.b.linked = true) (hacc : acct y.b = true) (hw : 0 < winB) :
+    0 < y.a.outWin ∧ winB ≤ y.a.outWin + winB / 10 := by
+  have hq := drained_is_quiescent y ta tb hia hib hnone
+  obtain ⟨h1, h2, h3⟩ := stuck_impossible winA maxA winB maxB nthr sched y hy ha hb hacc hq
+  exact ⟨h3 hw, by omega⟩
+
+/-- non-vacuity: a state with data in flight, buffered and an ack pending has a positive measure and a drain
+    run of 6 steps that ends drained -/
+example :
+    let y := prun fixedCfg (initPair 32768 32768 32768 4096 2) [.left (.send 0 4032 false), .left (.emit 0)]
+    mu y = 16149 ∧
+    mu (prun fixedCfg y [.deliverAB 1 1, .right (.recv 0 5000 false), .right (.check 0), .right (.emit 0),
+                         .deliverBA 1 0]) = 20 := by
+  decide +kernel
 
 /-- **The defect (code before the repair).**  One stderr-type message of 100 bytes that the receiver handles
     as extended data of type 2: the bytes are thrown away and never credited — the credits of the direction
